@@ -24,10 +24,10 @@ theorem waiting_after_beginUnstake (s : State) (a signer : Addr) (hk : ∀ v, ag
 
 /-- `handleMsgUnjail` never queues anybody but the addressed node, and only on the rejected
 "stake below the minimum" path of a message signed by the operator or the output address -/
-theorem waiting_after_unjail (s : State) (h t now : Int) (a signer : Addr) :
-    (handleUnjail s h t now a signer).1.waiting = s.waiting ∨
+theorem waiting_after_unjail (s : State) (h t : Int) (a signer : Addr) :
+    (handleUnjail s h t a signer).1.waiting = s.waiting ∨
     (∃ v, aget s.vals a = some v ∧ signerOk v.addr v.output signer = true ∧ v.tokens < s.params.minStake ∧
-      (handleUnjail s h t now a signer).1.waiting = sins s.waiting v.addr ∧ (handleUnjail s h t now a signer).2 ≠ .ok) := by
+      (handleUnjail s h t a signer).1.waiting = sins s.waiting v.addr ∧ (handleUnjail s h t a signer).2 ≠ .ok) := by
   unfold handleUnjail
   cases hv : aget s.vals a with
   | none => exact Or.inl rfl
@@ -48,16 +48,14 @@ theorem waiting_after_unjail (s : State) (h t now : Int) (a signer : Addr) :
             simp only
             split
             · rfl
-            · split
-              · rfl
-              · unfold unjailValidator
-                cases aget s.vals v.addr with
-                | none => rfl
-                | some w =>
-                  simp only
-                  split
-                  · rfl
-                  · simp [resetSigningInfo, clearMissed]
+            · unfold unjailValidator
+              cases aget s.vals v.addr with
+              | none => rfl
+              | some w =>
+                simp only
+                split
+                · rfl
+                · simp [resetSigningInfo, clearMissed]
 
 /-- `handleStake` never touches the waiting set -/
 theorem waiting_after_stake (s : State) (h : Int) (m : StakeMsg) (signer : Addr) :
